@@ -12,6 +12,7 @@ import (
 	"os"
 	"runtime/debug"
 	"sort"
+	"strings"
 	"sync"
 	"time"
 )
@@ -230,6 +231,20 @@ func TryStack(f func()) (panicked bool, msg string, stack string) {
 	}()
 	f()
 	return
+}
+
+// PanicSite extracts the first library function on a panic stack (for violation keys).
+func PanicSite(stack string) string {
+	for _, ln := range strings.Split(stack, "\n") {
+		if i := strings.Index(ln, "go-oryx-lib/"); i >= 0 && !strings.HasPrefix(ln, "\t") && !strings.Contains(ln, "verifshim") {
+			fn := ln[i+len("go-oryx-lib/"):]
+			if j := strings.LastIndex(fn, "("); j > 0 {
+				fn = fn[:j]
+			}
+			return fn
+		}
+	}
+	return "unknown"
 }
 
 func Hex(b []byte) string {
